@@ -397,9 +397,11 @@ func cmdCheck(args []string) int {
 			return b, nil
 		}
 		var names []string
+		seenName := map[string]bool{}
 		for k := range spec.Harnesses {
-			if spec.Harnesses[k].Pkg == h.Pkg && strings.Join(spec.Harnesses[k].Files, ",") == strings.Join(h.Files, ",") {
+			if spec.Harnesses[k].Pkg == h.Pkg && strings.Join(spec.Harnesses[k].Files, ",") == strings.Join(h.Files, ",") && !seenName[spec.Harnesses[k].Name] {
 				names = append(names, spec.Harnesses[k].Name)
+				seenName[spec.Harnesses[k].Name] = true
 			}
 		}
 		ov, err := nativeOverlay(id, h, names)
@@ -705,9 +707,11 @@ func replayFile(spec *checkSpec, path string) int {
 		fmt.Fprintln(os.Stderr, "harness not found:", v.Harness)
 		return 2
 	}
+	seenName := map[string]bool{}
 	for k := range spec.Harnesses {
-		if spec.Harnesses[k].Pkg == h.Pkg && strings.Join(spec.Harnesses[k].Files, ",") == strings.Join(h.Files, ",") {
+		if spec.Harnesses[k].Pkg == h.Pkg && strings.Join(spec.Harnesses[k].Files, ",") == strings.Join(h.Files, ",") && !seenName[spec.Harnesses[k].Name] {
 			names = append(names, spec.Harnesses[k].Name)
+			seenName[spec.Harnesses[k].Name] = true
 		}
 	}
 	ov, err := nativeOverlay(spec.ID, h, names)
